@@ -9,8 +9,8 @@ Property theorems only (helper lemmas and the specification predicates `Color.WF
 on this run; the only facts used about them are the side conditions `palettes_ok` (sizes 16/16/256,
 components ≤ 255), re-proved by `decide +kernel` on every run.
 
-`cfg : Cfg` carries (i) the code-variant flag `stdViaPalette` (`true` = the code as found, `false` =
-the repaired code) and (ii) the list `satExc` of (max, min) channel pairs where the IEEE-double
+`cfg : Cfg` carries (i) the code-variant flag `stdViaPalette` (`true` = rich 9.10.0 as found, `Cfg.today` — the name dates from before
+fix 2cec9e1; `false` = the repaired code that /repo contains now, `Cfg.repaired`) and (ii) the list `satExc` of (max, min) channel pairs where the IEEE-double
 saturation test differs from the exact one.  Every theorem below holds for **every** such list —
 no theorem depends on which way a floating point comparison fell — and, unless it says otherwise,
 for both code variants.  No theorem enumerates colours.
@@ -52,7 +52,7 @@ theorem default_stays (cfg : Cfg) (Q : Palettes) (c : Color) (sys : ColorSystem)
   downgrade_native cfg Q c sys (Or.inl h)
 
 /-- **A colour that already is one of the 16 indices keeps its index** when converted to a 16-colour
-system (only the type tag follows the system) — in the *repaired* code.  Today's code breaks this for
+system (only the type tag follows the system) — in the *repaired* code (fix 2cec9e1, what /repo contains now).  rich 9.10.0 as found broke this for
 the `standard` target, see `old_downgrade_standard_renumbers`. -/
 theorem downgrade_fixed_if_representable (cfg : Cfg) (hcfg : cfg.stdViaPalette = false) (Q : Palettes)
     (c : Color) (sys : ColorSystem) (n : Nat)
@@ -175,9 +175,9 @@ example : satLow satExcDouble ⟨55, 45, 50⟩ = true ∧ satLowExact 55 45 = fa
 example : getAnsiCodes { name := [], type := .standard, number := some 9 } true = .ok [91] := by decide
 example : getAnsiCodes { name := [], type := .windows, number := some 15 } false = .ok [107] := by decide
 
-/-! ## Witness: the defect found in the code as it stands (variant `stdViaPalette = true`) -/
+/-! ## Witness: the defect found in rich 9.10.0 as found, before fix 2cec9e1 (variant `stdViaPalette = true`) -/
 
-/-- Today's `downgrade(STANDARD)` of the 16-colour WINDOWS colour 8 ("bright black") goes through
+/-- The as-found `downgrade(STANDARD)` of the 16-colour WINDOWS colour 8 ("bright black") goes through
 `EIGHT_BIT_PALETTE[8] = (128,128,128)` and the palette search and comes back as colour 7 ("white"):
 `downgrade_fixed_if_representable` is false for the code as found. -/
 theorem old_downgrade_standard_renumbers :
